@@ -193,6 +193,19 @@ CHECKS = {
         "Trusted: as C01, plus the 40-line emulation of BenchmarkActor's handlers around the real coordinator. A worker that dies after "
         "having finished all its work is not counted as a fault during the race.",
     ),
+    "C12": (
+        "model_checking",
+        "explicit-state search (canonical state hashing, replay from the initial state, no deviation bound) over the real MechanicActor, "
+        "Dispatcher, NodeMechanicActor and Mechanic helper on the simulated transport, with recording stub supplier/provisioner/launcher",
+        "DESIGN.md §4 C12",
+        "6 target-host lists (local, remote, several nodes per host, mixed) x {no fault, launcher fails on each host, a daemon departs during "
+        "start-up} x {a non-target daemon, a daemon without ip capability joins} x preserve-install, plus external clusters: ALL reachable "
+        "states under every order of message deliveries (FIFO per pair), daemon joins and (thorough) periodic flush timers. Invariants: "
+        "EngineStarted only after every node group started, once; EngineStopped only after all started groups stopped; per group exactly one "
+        "stop -> final flush -> store close -> cleanup(preserve flag); every terminal state after a fault has a BenchmarkFailure at race "
+        "control, without fault EngineStarted and EngineStopped (no hang); external clusters never touched.",
+        "Trusted: mc/actorsim.py (untimed mode), the canonical state function (argument in ASSUMPTIONS), stubs for team loading and node launch.",
+    ),
 }
 
 NOT_YET = {}
